@@ -453,3 +453,62 @@ Proof.
   pose proof (natural_rule_no_panic r) as Hp.
   destruct (natural_rule r) as [f| |]; [| |congruence]; rewrite IH; reflexivity.
 Qed.
+
+(* on its natural branch mu is equivalent to the reference semantics *)
+From Anthem Require Import Sem.Domain Sem.Sat Sem.AspRef Proofs.NaturalMain.
+Theorem mu_natural_branch
+  (choose_fresh_global_variables : program -> list string)
+  (tau_star_rule : rule -> list string -> formula) (P : program) (th : theory) :
+  mu choose_fresh_global_variables tau_star_rule P = NOk th ->
+  forall i r f, nth_error P i = Some r -> regular_rule r -> nth_error th i = Some f ->
+  forall (FI : fint) (H T : pint), sub H T -> (hvalid FI H T f <-> ref_rule_sat H T r).
+Proof.
+  intros E i r f Hi Hr Hf FI H T HS.
+  destruct (mu_shape choose_fresh_global_variables tau_star_rule P) as [th' [E' [_ Hall]]].
+  rewrite E in E'. inversion E'; subst th'.
+  destruct (proj1 (Hall i r Hi) Hr) as [f' [En Hf']]. rewrite Hf in Hf'. inversion Hf'; subst f'.
+  apply natural_rule_ok; auto.
+Qed.
+
+(* non-vacuity of the oracle *)
+Lemma oracle_nontrivial :
+  let r := mkrule (HBasic (mkatom "p" [TBin AInterval (TPre (PNum 1)) (TPre (PNum 2))])) [] in
+  let H : pint := fun p a => p = "p" /\ a = [VNum 1%Z] in
+  let T : pint := fun p a => p = "p" /\ (a = [VNum 1%Z] \/ a = [VNum 2%Z]) in
+  sub H T /\ ref_rule_sat T T r /\ ~ ref_rule_sat H T r /\ (exists F, natural_rule r = NOk F).
+Proof.
+  cbv zeta. split; [|split; [|split]].
+  - intros p a [-> ->]. auto.
+  - intros sg. cbn. assert (G : forall vs, tuple_vals sg [TBin AInterval (TPre (PNum 1)) (TPre (PNum 2))] vs ->
+                               "p" = "p" /\ (vs = [VNum 1%Z] \/ vs = [VNum 2%Z])).
+    { intros vs F. inversion F as [|? v ? vs' Hv F']; subst. inversion F'; subst.
+      cbn in Hv. destruct Hv as [n1 [n2 [k [A [B [C ->]]]]]]. inversion A; inversion B; subst.
+      split; auto. assert (k = 1 \/ k = 2)%Z as [->| ->] by lia; auto. }
+    split; intros _; exact G.
+  - intros Hr. destruct (Hr (fun _ => VInf)) as [Hh _]. cbn in Hh.
+    destruct (Hh (Forall_nil _) [VNum 2%Z]) as [_ E]; [|discriminate].
+    constructor; [|constructor]. cbn. exists 1%Z, 2%Z, 2%Z. repeat split; lia.
+  - apply (proj1 (natural_rule_result _)). vm_compute. reflexivity.
+Qed.
+
+Lemma is_regular_by_ruleb P : is_regular P = NOk (forallb regular_ruleb P).
+Proof.
+  destruct (forallb regular_ruleb P) eqn:Ef.
+  - apply is_regular_true. rewrite forallb_forall in Ef. apply Forall_forall.
+    intros r Hr. apply regular_ruleb_spec, Ef, Hr.
+  - apply is_regular_false. intros HF. rewrite Forall_forall in HF.
+    apply forallb_false_ex' in Ef. destruct Ef as [r [Hr Hf]].
+    apply HF, regular_ruleb_spec in Hr. congruence.
+Qed.
+
+Lemma regularity_examples :
+  let X := TVar "X" in let Y := TVar "Y" in let n z := TPre (PNum z) in let a := TPre (PSym "a") in
+  let fact t := [mkrule (HBasic (mkatom "p" [t])) []] in
+  is_regular (fact (TBin ADiv (n 2%Z) X)) = NOk false /\
+  is_regular (fact (TBin AMul (n 3%Z) (TBin AInterval X Y))) = NOk false /\
+  is_regular (fact (TBin AAdd a (n 1%Z))) = NOk false /\
+  is_regular (fact (TBin AInterval a (n 5%Z))) = NOk false /\
+  is_regular (fact (TBin AInterval X Y)) = NOk true /\
+  is_regular (fact (TBin AMul (n 1%Z) (n 2%Z))) = NOk true /\
+  is_regular (fact a) = NOk true.
+Proof. cbv zeta. rewrite !is_regular_by_ruleb. repeat split. Qed.
